@@ -89,7 +89,11 @@ class SetTyper(ast.NodeVisitor):
                 return False
             return False
         if isinstance(e, ast.BinOp) and isinstance(e.op, (ast.BitOr, ast.BitAnd, ast.Sub, ast.BitXor)):
-            return self.is_set(e.left) or self.is_set(e.right)
+            # a dictionary view combined with a set operator (`d.keys() & names`, `names - d.keys()`, `d.items() ^ ..`) is a SET -- the
+            # only other operand types these operators accept next to a view are sets and iterables, and the result is always a set
+            def view(x):
+                return isinstance(x, ast.Call) and isinstance(x.func, ast.Attribute) and x.func.attr in ("keys", "items") and not x.args and not x.keywords
+            return self.is_set(e.left) or self.is_set(e.right) or view(e.left) or view(e.right)
         if isinstance(e, ast.Name):
             return e.id in self.setnames
         if isinstance(e, ast.Attribute):
